@@ -742,6 +742,10 @@ def run(ctx):
     mhits, m_eval, m_dist, m_radii = search_remap(ctx, rng, (400 if ctx.quick else 4000) * (3 if broken else 1))
     dfails, d_eval, d_dist = L.dtype_search(rng, (300 if ctx.quick else 3000) * (3 if broken else 1), 'distributions', 'C14')
     dhits = [Hit('dtype-independence', k_, 'Distributions(...).image().cos(): ' + w_, sn_, da_) for (k_, w_, sn_, da_) in dfails]
+    lfails, l_eval, l_dist = L.layout_search(rng, (400 if ctx.quick else 4000) * (3 if broken else 1), 'distributions', 'C14')
+    dhits += [Hit('layout-independence', k_, 'Distributions(...).image().cos(): ' + w_, sn_, da_) for (k_, w_, sn_, da_) in lfails]
+    d_eval += l_eval
+    d_dist += l_dist
     hits += uhits + mhits + dhits
     seen_exc = set()
     for c, out in exc:
@@ -766,7 +770,9 @@ def run(ctx):
                         'tolerances 1e-9 / 0.08 / 0.15 / 0.35 at radii >= 5 with cond <= 1000 and coverage >= 1/4; dtype independence: images '
                         'and weights of dtype uint8/int8/uint16/int16/int32/uint32/int64/float32 with values up to the type extremes must '
                         'give the result of their float64 copies (bit for bit whenever all conversions are exact, float32 products to 1e-4 '
-                        'at radii with cond <= 1e3), all methods, folding and non-folding origins',
+                        'at radii with cond <= 1e3), all methods, folding and non-folding origins; memory-layout independence: image / weights as '
+                        'Fortran-ordered, transposed view, strided view of a larger array, negative-stride view, read-only: bit-identical to the '
+                        'C-contiguous copies and arguments left intact (mostly non-square shapes, corner / edge / inside origins)',
                    samples=samples, exhaustive=False)
     new, seen = 0, set()
     for h in hits:
